@@ -1,6 +1,6 @@
 """C01 -- compiled circuit computes the function its symbolic circuit denotes (structural clauses)."""
 from ..core import Ctx, Ob, PropSpec
-from ..rules import r1, r4lite
+from ..rules import r1, r4, r4lite, r8, r11
 
 
 def run(ctx: Ctx) -> list[Ob]:
@@ -13,6 +13,9 @@ def run(ctx: Ctx) -> list[Ob]:
     obs += r1.r1b(ctx, r1.PARAM_REG)
     obs += r1.r1c(ctx, r1.PARAM_REG, False)
     obs += r4lite.batch_squeeze(ctx)
+    obs += r4.layer_contracts(ctx, {"R4b"})
+    obs += r8.run_guards(ctx, r8.GUARDS_MATCHERS)
+    obs += r11.run(ctx)
     return obs
 
 
@@ -27,12 +30,21 @@ SPEC = PropSpec(
         "silently evaluates with a default; R1d: every layer rule forwards the compiler's semiring; R4 (size-dependent rank): no "
         "evaluation method of an input-function layer (forward / log_unnormalized_likelihood and the helpers that receive the "
         "input unchanged) squeezes the fold or batch axis of its (F, B, D) input -- the static form of 'each row depends only on "
-        "its own row, whatever the batch size'."
+        "its own row, whatever the batch size'; R4b (symbolic shape interpretation of the source, nothing executed): for every "
+        "concrete torch layer and every admissible abstract configuration of its constructor (arity 1..3, probs / logits, optional "
+        "log-partition, wrapped evidence layers; all sizes symbolic, parameter shapes taken from the constructor's own validation), "
+        "forward maps (F, H, B, Ki) -- (F, B, D) for input layers, a batch size for constant layers -- to exactly (F, B, Ko): the "
+        "'(batch, outputs, units)' clause per layer, for every size at once; R8: the two optimiser chain matchers refuse (return None) a non-root entry with fan-out > 1 and a "
+        "non-last entry with fan-in > 1 (optimize=True must not rewire shared sub-circuits); R11 (semiring tables, sibling agreement): the four operators of each "
+        "semiring belong to one algebra (linear: sum/prod/add/mul, log: logsumexp/sum/logaddexp/add) and forward dim / keepdim; every "
+        "ordered pair of semirings has a registered morphism whose exp / log matches the two families; the stable reduce of a "
+        "log-space semiring shifts every input by its own maximum over dim (keepdim=True), makes the shift finite before subtracting "
+        "(an all -inf row is log 0, not nan), adds the shifts back and drops the reduced axis when keepdim is False."
     ),
     not_decided=(
         "numerical equality with the denoted function; the full tensor-shape contracts of the forward functions (shape "
-        "interpreter of DESIGN 3.R4 not built); semiring tables (R11 not built); run-time address-book index arithmetic."
+        "interpreter of DESIGN 3.R4 not built); run-time address-book index arithmetic."
     ),
     run=run,
-    floors={"R1a": 38, "R1b": 38, "R1c": 170, "R1d": 10, "R4": 8},
+    floors={"R1a": 38, "R1b": 38, "R1c": 170, "R1d": 10, "R4": 8, "R4b": 25, "R8": 12, "R11a": 12, "R11b": 12, "R11c": 10},
 )
